@@ -1,8 +1,9 @@
 #!/bin/bash
-# usage: tools/sweep.sh <logdir> [parallel]  — the thorough tier of all 20 properties, <parallel> (default 5) at a time,
+# usage: tools/sweep.sh <logdir> [parallel]  — the thorough tier of all 20 properties, <parallel> (default 2) at a time
+# (each run analyses its variants with up to eight workers of its own),
 # with a COPY of the built checker (so that editing/rebuilding the checker meanwhile does not disturb the run).
 # Writes <logdir>/<id>.log (selftest summary, misses, stale variants) and <logdir>/DONE at the end.
-out=${1:?logdir}; par=${2:-5}
+out=${1:?logdir}; par=${2:-2}
 mkdir -p "$out"
 cp /verif/.build/pkcheck "$out/pkcheck.bin"
 one() {
